@@ -11,7 +11,11 @@ use std::sync::Mutex;
 use std::time::Instant;
 
 pub const DEFAULT_SEED: u64 = 20260926;
-pub const VERIF_DIR: &str = "/verif";
+/// Where evidence, replays and known_findings.json live. Always /verif for the registered checks;
+/// `EGSIM_VERIF_DIR` lets informational tooling (tools/seeded_matrix.sh) work on a private copy.
+pub fn verif_dir() -> String {
+    std::env::var("EGSIM_VERIF_DIR").unwrap_or_else(|_| "/verif".to_string())
+}
 
 pub const EXIT_OK: i32 = 0;
 pub const EXIT_VIOLATION: i32 = 1;
@@ -75,7 +79,7 @@ pub struct KnownFinding {
 }
 
 pub fn load_known_findings() -> Result<Vec<KnownFinding>, String> {
-    let path = format!("{}/known_findings.json", VERIF_DIR);
+    let path = format!("{}/known_findings.json", verif_dir());
     let text = match std::fs::read_to_string(&path) {
         Ok(t) => t,
         Err(_) => return Ok(Vec::new()),
@@ -389,7 +393,7 @@ pub struct ReplayInfo<'a> {
 }
 
 pub fn write_replay(info: &ReplayInfo) -> Result<String, String> {
-    let dir = format!("{}/replays", VERIF_DIR);
+    let dir = format!("{}/replays", verif_dir());
     std::fs::create_dir_all(&dir).map_err(|e| e.to_string())?;
     let path = format!("{}/{}-{:016x}.json", dir, info.prop, tape_hash(info.prop, info.tape));
     let mut j = J::obj()
@@ -898,7 +902,7 @@ pub fn run_batch<P: Property>(p: &P, cfg: &BatchCfg) -> i32 {
         .set("violations", J::i(if exit == EXIT_VIOLATION { 1 } else { 0 }));
 
     if cfg.write_evidence {
-        let dir = format!("{}/evidence", VERIF_DIR);
+        let dir = format!("{}/evidence", verif_dir());
         let _ = std::fs::create_dir_all(&dir);
         let path = format!("{}/{}.json", dir, prop);
         if let Err(e) = std::fs::write(&path, ev.pretty()) {
